@@ -103,6 +103,10 @@ type Sched struct {
 	Hot       []bool // site-indexed: sites where AtYield is consulted
 	SiteHits  map[int]int
 
+	LastSite   int // site of the most recent yield of the baton holder
+	MaxYields  int // stop the run once this many yield points were passed (0 = no limit)
+	overBudget bool
+
 	// hooks (run on the scheduler goroutine; must only touch harness state)
 	OnStep func() bool // return false to stop the run
 	// OnQuiescent is run as a task when no task is ready, before the clock moves.
@@ -203,7 +207,12 @@ func Yield(site int) {
 	if s.cur == t {
 		s.Yields++
 		s.turnY++
+		s.LastSite = site
 		pre := false
+		if s.MaxYields > 0 && s.Yields > s.MaxYields {
+			s.overBudget = true
+			pre = true
+		}
 		if s.budget >= 0 {
 			if s.budget == 0 {
 				pre = true
@@ -632,6 +641,10 @@ func (s *Sched) Run(horizon time.Duration, maxSteps int) string {
 		if s.Diverged != "" {
 			s.mu.Unlock()
 			return "diverged"
+		}
+		if s.overBudget {
+			s.mu.Unlock()
+			return "yields"
 		}
 		s.cur = nil
 		var settle, oracle *Task
